@@ -100,7 +100,7 @@ class Check:
         if self.replay:
             want = self.replay
             out_viol = [v for v in out_viol if v['rule'] == want.get('rule') and v['instance'] == want.get('instance')]
-        evdir = os.path.join(VERIF, 'evidence')
+        evdir = os.environ.get('IMBV_EVIDENCE_DIR') or os.path.join(VERIF, 'evidence')
         os.makedirs(os.path.join(evdir, 'replay'), exist_ok=True)
         lines = []
         for hit, v in known_hits:
